@@ -573,4 +573,8 @@ UNITS += [
 """),
 ]
 
+# prune writes its rebuilt index through the Indexer (live and marked sections): the Indexer units live in C07's spec and are
+# verified as part of this property's check as well (a marked-only index file must still be written: the marked packs stay listed)
+SATELLITES = [("C07", ["indexer_constants", "Indexer", "indexer_new", "indexer_new_unindexed", "indexer_reset", "add_with", "indexer_has", "IndexFile", "indexfile_add", "indexer_save", "indexer_finalize", "indexer_add", "indexer_add_remove", "ParentResult", "TreeType"])]
+
 META = {"not_covered": []}
